@@ -20,13 +20,15 @@ EXPLANATION = (
     "before it is used as divisor, and the digit alphabet is 0123456789ABCDEF; (U2) '-' is "
     "emitted only under sign && (signed)val < 0 && base == 10 and the magnitude is obtained by "
     "negation in the unsigned type; (W) the wrappers pass (base 10, signed) / (base, unsigned); "
-    "thorough: the 32- and 64-bit siblings have the same decision/effect summary. NOT decided: "
-    "that digit extraction yields the canonical digits (loop arithmetic on values).")
+    "(T2) the digit step has the shape digit = uval / x, alphabet[digit], uval -= digit * x, x /= base, with "
+    "leading zeros skipped while uval / x == 0 and the loop running while x != 0. NOT decided: the arithmetic "
+    "fact that this step yields the canonical digits (a non-linear invariant, 0 <= uval < x * base).")
 
 RULES = {
     "C14-B1": "every store into the caller's buffer is in bounds for every length >= 0; NUL stored whenever a byte remains",
     "C14-B2": "characters are stored at the running position, which advances by one per character and is returned; emission stops only on position >= len",
     "C14-T1": "initial divisor per radix is the largest power representable; other radixes normalised to 10 before use; digit alphabet 0-9A-F",
+    "C14-T2": "digit step: the character stored is alphabet[uval / x], the remainder is uval - digit * x (or uval % x), leading zeros are skipped while uval / x == 0, the loop runs while x != 0",
     "C14-U2": "'-' only under sign && (signed)val < 0 && base == 10; magnitude by unsigned negation",
     "C14-W": "wrappers: Int*ToStr -> (10, signed), UInt*ToStrBase -> (base, unsigned)",
 }
@@ -269,6 +271,84 @@ def rule_t1_u2(ck, prog):
                         "'-' is emitted under %s (needs sign, negative, base10); unsigned negation: %s" % (sorted(have), uns_ok))
 
 
+def rule_t2(ck, prog):
+    for name, bits in FORMATTERS:
+        f = prog.fn(name)
+        if f is None:
+            continue
+        base = f.params[3]["name"]
+        divs = [t.get("path") for n, t in C.stores(f) if n.get("op") == "/=" and n.child(1).strip_all_casts().get("path") == base]
+        st = K.site(f, "digit-step", 0)
+        if not divs:
+            ck.anchor_lost("C14-T2", "%s: divisor" % name)
+            continue
+        x = divs[0]
+        probs = []
+
+        def is_quot(e, num=None):
+            e = e.strip_all_casts()
+            while e.k == "ParenExpr":
+                e = e.child(0).strip_all_casts()
+            return e.k == "BinaryOperator" and e.get("op") == "/" and e.child(1).strip_all_casts().get("path") == x and \
+                (num is None or e.child(0).strip_all_casts().get("path") == num) and e.child(0).strip_all_casts().get("path")
+        # the value variable: the numerator of the quotient assigned to the digit
+        dig = uv = None
+        for n, t in C.stores(f):
+            if n.get("op") == "=" and t.k == "DeclRefExpr":
+                q = is_quot(n.child(1))
+                if q:
+                    dig, uv = t.get("path"), q
+        if dig is None:
+            # digit used inline: alphabet[uval / x]
+            for n in f.nodes.values():
+                if n.k == "ArraySubscriptExpr" and is_quot(n.child(1)):
+                    uv = is_quot(n.child(1))
+        if uv is None:
+            ck.violated("C14-T2", st, K.loc(f), "no digit is computed as <value> / %s" % x)
+            continue
+        # character = alphabet[digit]
+        alpha = [d["name"] for n in f.nodes.values() if n.k == "DeclStmt" for d in n.get("decls", [])
+                 if "init" in d and f.nodes[d["init"]].strip_all_casts().k == "StringLiteral"]
+        loads = [n for n in f.nodes.values() if n.k == "ArraySubscriptExpr" and n.child(0).strip_all_casts().get("path") in alpha]
+        if not loads or not all((l.child(1).strip_all_casts().get("path") == dig) or is_quot(l.child(1), uv) for l in loads):
+            probs.append("the character stored is not alphabet[%s / %s]" % (uv, x))
+        # remainder
+        rem_ok = False
+        for n, t in C.stores(f):
+            if t.get("path") != uv:
+                continue
+            r = n.child(1).strip_all_casts() if n.ch and len(n.ch) > 1 else None
+            while r is not None and r.k == "ParenExpr":
+                r = r.child(0).strip_all_casts()
+            if n.get("op") == "-=" and r is not None and r.k == "BinaryOperator" and r.get("op") == "*":
+                ops = {r.child(0).strip_all_casts().get("path"), r.child(1).strip_all_casts().get("path")}
+                if ops == {dig, x}:
+                    rem_ok = True
+            if n.get("op") == "%=" and r is not None and r.get("path") == x:
+                rem_ok = True
+            if n.get("op") == "=" and r is not None and r.k == "BinaryOperator" and r.get("op") == "%" and \
+                    r.child(0).strip_all_casts().get("path") == uv and r.child(1).strip_all_casts().get("path") == x:
+                rem_ok = True
+        if not rem_ok:
+            probs.append("the remainder is not %s - digit * %s" % (uv, x))
+        # leading zeros: a loop whose condition is (uval / x) == 0 and whose body only steps the divisor down
+        lz = [b for b in f.blocks.values() if b.term_kind == "WhileStmt" and b.cond is not None and b.cond.k == "BinaryOperator"
+              and b.cond.get("op") == "==" and C.const_of(b.cond.child(1)) == 0 and is_quot(b.cond.child(0), uv)]
+        if len(lz) != 1:
+            probs.append("leading zeros are not skipped by `while (%s / %s == 0)`" % (uv, x))
+        # the digit loop continues while x != 0
+        cont = [b for b in f.blocks.values() if b.term_kind == "DoStmt" or (b.cond is not None and b.cond.get("path") == x)]
+        xs = [b for b in f.blocks.values() if b.cond is not None and (b.cond.strip_all_casts().get("path") == x or
+              (b.cond.k == "BinaryOperator" and b.cond.get("op") in ("!=", ">") and b.cond.child(0).strip_all_casts().get("path") == x
+               and C.const_of(b.cond.child(1)) == 0))]
+        if not xs:
+            probs.append("the digit loop is not controlled by %s != 0" % x)
+        if probs:
+            ck.violated("C14-T2", st, K.loc(f), "; ".join(probs))
+        else:
+            ck.holds("C14-T2", st, K.loc(f), "digit = %s / %s; alphabet[digit]; %s -= digit * %s; %s /= base while %s" % (uv, x, uv, x, x, x))
+
+
 def rule_w(ck, prog):
     want = {"SCPI_Int32ToStr": ("UInt32ToStrBaseSign", 10, 1), "SCPI_UInt32ToStrBase": ("UInt32ToStrBaseSign", "base", 0),
             "SCPI_Int64ToStr": ("UInt64ToStrBaseSign", 10, 1), "SCPI_UInt64ToStrBase": ("UInt64ToStrBaseSign", "base", 0)}
@@ -330,6 +410,7 @@ def run(ck, fb, tier):
         rule_b2(ck, prog)
         rule_t1_u2(ck, prog)
         rule_w(ck, prog)
+        rule_t2(ck, prog)
     ck.trust("spec/bounds.json capacity contracts ((str, len) pairs)")
 
 
